@@ -45,6 +45,8 @@ def ev(x, env):
         raise Unmodelled("unary " + op)
     if t == "?" and len(x) == 4:
         return ev(x[2], env) if ev(x[1], env) else ev(x[3], env)
+    if t == "b" and x[1] == "=":
+        return _assign(x[2], ev(x[3], env), env)
     if t == "b":
         op = x[1]
         if op == "&&":
@@ -70,12 +72,52 @@ def ev(x, env):
     if t == "x":
         base = ev(x[1], env)
         return base[ev(x[2], env)]
+    if t == "f":
+        k = "f:" + x[1]
+        if k in env:
+            return env[k]
+        raise Unmodelled("free field %s" % x[1])
+    if t == "c" and "__call__" in env:
+        return env["__call__"](x, env)
+    if t == "t":
+        raise Thrown(x)
     raise Unmodelled("expression kind %s" % t)
+
+
+class Thrown(Exception):
+    """the evaluated path ends in a throw expression."""
+
+
+def _assign(lhs, v, env):
+    while lhs[0] == "cast":
+        lhs = lhs[2]
+    if lhs[0] == "l":
+        env[lhs[1]] = v
+    elif lhs[0] == "p":
+        env[lhs[2]] = v
+    elif lhs[0] == "f" and len(lhs) == 2:
+        env["f:" + lhs[1]] = v
+    else:
+        raise Unmodelled("assignment target %s" % lhs[0])
+    return v
 
 
 class _Return(Exception):
     def __init__(self, v):
         self.v = v
+
+
+def run_env(body, env):
+    """execute a statement tree for its effect on the environment (assignments to locals, parameters and members of
+    *this, calls interpreted by env["__call__"]); returns the final environment, or None when the path throws."""
+    env = dict(env)
+    try:
+        _exec(body, env)
+    except _Return:
+        pass
+    except Thrown:
+        return None
+    return env
 
 
 def run_st(body, env):
@@ -104,6 +146,8 @@ def _exec(s, env):
         raise _Return(ev(s[1], env))
     elif t == "null":
         return
+    elif t == "expr":
+        ev(s[1], env)
     elif t == "decl":
         for name, _ty, init, _cap in s[1]:
             if init is not None:
